@@ -129,6 +129,8 @@ def pgFragment : String → List Stmt → Bool
     | .addColumn t c .none => colDefPgOk c && !pgQuoted t && !pgQuoted c.name && pgFragment cursor rest
     | .dropColumn t c => !pgQuoted t && !pgQuoted c && pgFragment cursor rest
     | .createIndex t _ _ _ u => t == cursor && u == "" && pgFragment cursor rest
+    | .alterType t c _ => !pgQuoted t && !pgQuoted c && pgFragment cursor rest
+    | .dropNotNull t c => !pgQuoted t && !pgQuoted c && pgFragment cursor rest
     | _ => false
 
 /-- the fragment the sqlite reader glue understands: CREATE TABLE without DEFAULT, CREATE INDEX -/
